@@ -906,8 +906,7 @@ public:
                 std::string name = "local" + std::to_string(seed % 1000) + ".verif";
                 as_script(name.c_str(), AS_OK, 10, ips, 1);
                 std::string la = World::client_proto(tp) + ":" + name + ":0";
-                if (tp == UTLS_TLS) la = "tls:" + name + ":0";
-                xcm_attr_map_add_str(a, tp == UTLS_TLS ? "tls.local_addr" : "xcm.local_addr", la.c_str());
+                xcm_attr_map_add_str(a, "xcm.local_addr", la.c_str());
             }
         }
         Ep S, Pr;
